@@ -620,6 +620,21 @@ def _post_table(exe, s2, f, cols, vert, width, raw, cells_meta, ncols, shape):
             mh = z3.UDiv(minw.e, u64(span))
             col_size[k] = z3.If(z3.UGT(sh, col_size[k]), sh, col_size[k])
             col_min[k] = z3.If(z3.UGT(mh, col_min[k]), mh, col_min[k])
+    # rounding repair: when the columns a spanning cell covers are together smaller than the cell's estimate,
+    # its first column carries the difference (cells are visited row by row, left to right, after all shares are known)
+    for (ri, ci, span, size, minw) in cells_meta:
+        if span <= 1:
+            continue
+        start = sum(shape[ri][:ci])
+        have_size = u64(0)
+        have_min = u64(0)
+        for k in range(start, start + span):
+            have_size = have_size + col_size[k]
+            have_min = have_min + col_min[k]
+        ns = col_size[start] + z3.If(z3.UGT(size.e, have_size), size.e - have_size, u64(0))
+        nm = col_min[start] + z3.If(z3.UGT(minw.e, have_min), minw.e - have_min, u64(0))
+        col_size[start] = z3.If(z3.UGE(ns, nm), ns, nm)
+        col_min[start] = nm
     min_size = u64(ncols - 1)
     for m in col_min:
         min_size = min_size + m
